@@ -24,7 +24,7 @@ ASSUMPTIONS = [
 REQUIRED_LABELS = {
     "quick": ["auth:legacy", "auth:segwit", "unauth", "v1", "dev:early", "dev:late", "dev:op",
               "sig:bad", "multi-chunk-btc", "policy:all-1", "success", "history", "bip144",
-              "related-to-previous"],
+              "related-to-previous", "hex:spaced", "hex:upper"],
     "thorough": ["auth:legacy", "auth:segwit", "unauth", "v1", "dev:early", "dev:late",
                  "dev:op", "sig:bad", "multi-chunk-btc", "policy:all-1", "success", "history",
                  "bip144",
@@ -115,7 +115,8 @@ def one_sign(draw, tier):
     else:
         path = draw(st.sampled_from(refs.ALL_PATHS))
     c = {"v1": v1, "path": path, "policy": draw(chunk_policy()), "sig": draw(signature()),
-         "dev": None}
+         "dev": None,
+         "hexstyle": draw(st.sampled_from(["plain", "plain", "plain", "upper", "spaced"]))}
     authorized = path in refs.AUTH_PATHS
     if authorized:
         tx = draw(txs(max_in=20 if thorough else 8))
@@ -159,21 +160,36 @@ def one_sign(draw, tier):
     return c
 
 
+def hextext(b, style, k=0):
+    """Hex as a client may write it: lower case, upper case, or with blanks between some bytes
+    (a spelling `bytes.fromhex` reads and the manager currently lets through)."""
+    h = b.hex()
+    if style == "upper":
+        return h.upper()
+    if style == "spaced" and len(b) >= 2:
+        step = 1 + k % 5
+        return " ".join(h[i:i + 2 * step] for i in range(0, len(h), 2 * step))
+    return h
+
+
 def build_request(c):
+    st_ = c.get("hexstyle", "plain")
     req = {"command": "sign", "version": 1 if c["v1"] else 5, "keyId": c["path"]}
     if "tx" in c:
-        m = {"tx": refs.tx_bytes(c["tx"]).hex(), "input": c["input"],
+        m = {"tx": hextext(refs.tx_bytes(c["tx"]), st_, 3), "input": c["input"],
              "sighashComputationMode": c["mode"]}
         if c["mode"] == "segwit":
-            m["witnessScript"] = c["ws"].hex()
+            m["witnessScript"] = hextext(c["ws"], st_, 1)
             m["outpointValue"] = c["ov"]
         req["message"] = m
-        req["auth"] = {"receipt": c["receipt"].hex(),
-                       "receipt_merkle_proof": [n.hex() for n in c["proof"]]}
+        # blanks in every other node only: a slip may concern one element of a list
+        req["auth"] = {"receipt": hextext(c["receipt"], st_, 2),
+                       "receipt_merkle_proof": [hextext(n, st_ if i % 2 else "plain", i)
+                                                for i, n in enumerate(c["proof"])]}
     elif c["v1"]:
-        req["message"] = c["hash"].hex()
+        req["message"] = hextext(c["hash"], st_)
     else:
-        req["message"] = {"hash": c["hash"].hex()}
+        req["message"] = {"hash": hextext(c["hash"], st_)}
     return req
 
 
@@ -267,7 +283,11 @@ def run_one(c, w, p):
         raise Violation("reply-shape", repr(rep)[:300])
     code = rep["errorcode"]
     exp = expected_parts(c)
-    labels = ["v1" if c["v1"] else "v5"]
+    labels = ["v1" if c["v1"] else "v5", "hex:" + c.get("hexstyle", "plain")]
+    if c.get("hexstyle") == "spaced" and code != 0 and len(w.completed) == n_completed and \
+            w.sign_st is None and not w.apdus(mark):
+        # a manager may refuse this spelling outright (the docs speak of hex strings)
+        return Out(labels + ["spaced-hex-refused"], False)
     if c.get("related"):
         labels.append("related-to-previous")
     authorized = "tx" in c
